@@ -67,8 +67,14 @@ class LifecycleRun:
             return H.using(**({"rounds": c} if c is not None else {})).hash(pw)
 
     def _make_record(self, u):
+        from simkit.worlds.credstore import HEX32
+
         shape = u["shape"]
-        h = self._hash(u["scheme"], u["pw"])
+        scheme = u["scheme"]
+        if scheme in HEX32:
+            # of several formats that claim the same strings the context reads a record as the first one configured
+            scheme = [s for s in self.names if s in HEX32][0]
+        h = self._hash(scheme, u["pw"])
         rec = {"pw": u["pw"], "orig": h}
         if shape == "hash":
             rec["cur"] = h
